@@ -211,13 +211,27 @@ class PITConv1d(nn.Conv1d, PITModule):
             )
             # If explicit padding nn.Module exist is simply substituted with new_pad
             # else a new node is created and new_pad inserted
-            for inp in n.args:
-                inp = cast(fx.Node, inp)
-                if inp.op == 'call_module':
-                    if isinstance(mod.get_submodule(str(inp.target)), nn.ConstantPad1d):
-                        mod.add_submodule(str(inp.target), new_pad)
-                        break  # Found it, we can exit and go on
-            else:  # Did not find anything
+            # (this is done at every call site of the layer; a padding module that also serves
+            # other layers is left alone, and this layer is fed through a padding of its own)
+            sites = [s for s in mod.graph.nodes if s.op == 'call_module' and s.target == n.target]
+            found = False
+            for site in sites:
+                for inp in site.args:
+                    if isinstance(inp, fx.Node) and inp.op == 'call_module' and \
+                            isinstance(mod.get_submodule(str(inp.target)), nn.ConstantPad1d):
+                        found = True
+                        if all(u in sites for s in mod.graph.nodes
+                               if s.op == 'call_module' and s.target == inp.target
+                               for u in s.users):
+                            mod.add_submodule(str(inp.target), new_pad)
+                        else:
+                            mod.add_submodule(str(n.target) + "_pad", new_pad)
+                            with mod.graph.inserting_before(site):
+                                new_node = mod.graph.call_module(
+                                    str(n.target) + "_pad", args=inp.args)
+                            site.replace_input_with(inp, new_node)
+                        break
+            if not found:  # Did not find anything
                 mod.add_submodule(str(n.target) + "_pad", new_pad)
                 with mod.graph.inserting_before(n):
                     new_node = mod.graph.call_module(
